@@ -79,6 +79,16 @@ func Gen(t *rapid.T, p Profile) Case {
 	default:
 		c.Cfg.SyncWrites = rapid.Bool().Draw(t, "sync")
 	}
+	if rapid.IntRange(0, 2).Draw(t, "vlogHeavy") == 0 {
+		// value-log heavy flavour: several buckets, small files (frequent rotation inside a
+		// batch), optional hot/cold routing
+		c.Cfg.ValueThreshold = 32
+		c.Cfg.Buckets = rapid.SampledFrom([]int{2, 3}).Draw(t, "vhBuckets")
+		c.Cfg.VlogFileSize = 64 << 10
+		if rapid.Bool().Draw(t, "vhHot") {
+			c.Cfg.HotBuckets, c.Cfg.HotAfter = 1, 2
+		}
+	}
 	c.Keys = eng.KeyPool(t, 2, 6)
 	if c.Cfg.Engine == "art" && (pbt.Open("C07-F7") || pbt.Open("C07-F7pad")) {
 		c.Keys = prefixFree(c.Keys)
@@ -89,16 +99,19 @@ func Gen(t *rapid.T, p Profile) Case {
 	}
 	n := rapid.IntRange(4, maxOps).Draw(t, "nops")
 	sizes := []int{1, 8, 31, 33, 100, 1000, 9000, 40000}
-	maintKinds := []string{"rotate", "rotate", "compact", "once", "rewrite", "gc"}
+	if c.Cfg.VlogFileSize == 64<<10 && c.Cfg.ValueThreshold == 32 {
+		sizes = []int{8, 33, 1000, 9000, 30000, 40000, 40000}
+	}
+	maintKinds := []string{"rotate", "rotate", "rotate-async", "rotate-async", "drain", "once", "rewrite", "gc"}
 	if c.Mode == "plain" && pbt.Open("C01-F1c") {
 		// equal-version copies meeting in one ingest buffer are a listed finding:
 		// plain workloads do not move tables out of L0
-		maintKinds = []string{"rotate", "rotate", "rewrite", "gc"}
+		maintKinds = []string{"rotate", "rotate", "rotate-async", "rotate-async", "rewrite", "gc"}
 	}
 	if c.Mode == "txn" && pbt.Open("C02-R1") {
 		// GC re-inserts live old versions into the newest memtable, which then shadow newer
 		// versions in SSTs (first-hit-by-level lookup, listed as C02-R1)
-		maintKinds = []string{"rotate", "rotate", "compact", "once"}
+		maintKinds = []string{"rotate", "rotate", "rotate-async", "rotate-async", "drain", "once"}
 	}
 	for i := 0; i < n; i++ {
 		op := Op{K: rapid.SampledFrom([]string{"set", "set", "set", "txn", "txn", "maint"}).Draw(t, "op")}
